@@ -145,6 +145,17 @@ BUILT = {
             "report success only if the file holds exactly code[0, offset)",
             "a refusal is NULL / MAP_FAILED / -1 / short count with errno set; for refused munmap/close/fclose only survival "
             "is demanded", "DESIGN.md section 6, C17"),
+    "C18": ("model_checking",
+            "stateless model checking of the real code: pre-emption-bounded exhaustive schedule enumeration (CHESS-style, "
+            "depth-first over deviation sets) of 2-4 real pthreads under a cooperative scheduler, scheduling points injected "
+            "by -finstrument-functions and by shims around the global atomic tables; plus a separate free-running "
+            "ThreadSanitizer pass of the same thread bodies",
+            "every schedule with <= 2 pre-emptions (2 and 3 threads; <= 3 at coarse granularity in thorough) over ~250 "
+            "points per thread is executed; each thread's results must equal its single-threaded reference; TSan must stay "
+            "silent",
+            "sequentially consistent interleavings at function-entry/exit and table-access granularity; weaker memory "
+            "orderings are not modelled (the tables are _Atomic seq_cst, and TSan reports if they stop being so)",
+            "DESIGN.md section 6, C18"),
     "C19": ("model_checking",
             "exhaustive enumeration of file sizes (0..64 and +-8 around 1, 2, 3 pages) x 4 endings x both file entry points "
             "on the real API with text buffers placed flush against a PROT_NONE page, compared with the string entry points "
